@@ -154,6 +154,7 @@ pub(crate) mod verif_l2_records {
             assert!(r.ground_movement == crate::decoder::ground_movement(&m), "record ground movement");
             assert!(r.track == crate::decoder::ground_track(&m), "record track = ground track");
             assert!(r.altitude.is_none(), "surface position record carries no altitude");
+            assert!(r.track_source == Some('\u{2070}') || r.track_source == Some(' ') || r.track_source.is_none(), "surface record track source mark");
             assert!(is_fresh_except(&r, &["cpr", "ground_movement", "track", "track_source", "altitude_source"]), "nothing else filled");
         } else {
             assert!(r.altitude == crate::decoder::altitude(&m, df), "record altitude = decoded altitude code");
